@@ -317,6 +317,12 @@ class Ctx:
         self.violations.append({'kind': kind, 'what': what, 'case': case, 'expected': expected,
                                 'observed': observed, 'python': python, 'theorem': theorem})
 
+    def disagree(self, what, case=None, python=None):
+        """model and implementation differ on a case: the correspondence is broken (not by itself a failing
+        input of the property; the oracle decides that)"""
+        self.violations.append({'kind': 'correspondence-broken', 'what': what, 'case': case, 'expected': None,
+                                'observed': None, 'python': python, 'theorem': None})
+
     def known(self, fid, what):
         self.known_hits[fid] = self.known_hits.get(fid, 0) + 1
         line = "KNOWN-FINDING: property=%s %s %s" % (self.prop, fid, what)
